@@ -113,6 +113,8 @@ pub fn fld(f: PurlField) -> &'static str {
         PurlField::Name => "name",
         PurlField::Version => "version",
         PurlField::Subpath => "subpath",
+        #[allow(unreachable_patterns)]
+        _ => "other",
     }
 }
 pub fn perr(e: &ParseError) -> String {
@@ -122,6 +124,8 @@ pub fn perr(e: &ParseError) -> String {
         ParseError::InvalidPackageType => "InvalidType".into(),
         ParseError::InvalidQualifier => "InvalidQualifier".into(),
         ParseError::InvalidEscape => "InvalidEscape".into(),
+        #[allow(unreachable_patterns)]
+        other => format!("Other({})", other), // a variant the machinery does not know (the enum grew)
     }
 }
 #[cfg(feature = "pt")]
@@ -130,6 +134,8 @@ pub fn pkerr(e: &PackageError) -> String {
         PackageError::MissingRequiredField(f) => format!("PMissing({})", fld(*f)),
         PackageError::Parse(e) => format!("Parse:{}", perr(e)),
         PackageError::UnsupportedType => "UnsupportedType".into(),
+        #[allow(unreachable_patterns)]
+        other => format!("Other({})", other),
     }
 }
 pub fn qs(q: &Qualifiers) -> String {
